@@ -91,6 +91,7 @@ static const char *elemName() {
          : std::is_same<E, ETR>::value   ? "TR"
          : std::is_same<E, ENTR>::value  ? "NTR"
          : std::is_same<E, ENTRM>::value ? "NTR"
+         : std::is_same<E, ENTRA>::value ? "NTR"
                                          : "?";
 }
 
@@ -300,6 +301,8 @@ static void runCtor(Slot<T> &s, const Label &lb, Result &r) {
   if (op == "ctorDefault") {
     guarded(lb, r, [&] { s.construct([&](void *w) { return new (w) T(); }); });
   } else if (op == "ctorCount") {
+    guarded(lb, r, [&] { s.construct([&](void *w) { return new (w) T(static_cast<SZ>(lb.n)); }); });
+  } else if (op == "ctorCountBig") {
     guarded(lb, r, [&] { s.construct([&](void *w) { return new (w) T(static_cast<SZ>(lb.n)); }); });
   } else if (op == "ctorCountVal") {
     std::optional<E> t;
@@ -760,7 +763,7 @@ static std::string configJson(std::index_sequence<I...>) {
   std::string s = std::string("{\"e\":\"config\",\"name\":\"") + CFG_NAME + "\",\"elem\":\"" + elemName() +
                   "\",\"esize\":" + std::to_string(sizeof(E)) + ",\"alloc\":\"" + kAllocName +
                   "\",\"std\":" + std::to_string(__cplusplus) + ",\"nxmove\":" +
-                  (std::is_nothrow_move_constructible<E>::value ? "true" : "false") + ",\"countsGlobal\":" + kCountsGlobal +
+                  (std::is_nothrow_move_constructible<E>::value && std::is_nothrow_move_assignable<E>::value ? "true" : "false") + ",\"countsGlobal\":" + kCountsGlobal +
                   ",\"slots\":[";
   bool first = true;
   // two slots have the same TypeId iff their C++ types are identical
